@@ -21,6 +21,8 @@ type Hist struct {
 	// bookkeeping for the oracles
 	cfgs   []*Cfg // the configuration each url handle was created under (nil for profiles' results: Inner is used)
 	panics int
+	// per-state oracles to evaluate on every url handle whose observation changed (default configuration only)
+	Check map[string]bool
 }
 
 var setterNames = []string{"protocol", "username", "password", "host", "hostname", "port", "pathname", "search", "hash"}
@@ -79,6 +81,9 @@ func (h *Hist) run(toks string, f func() string) string {
 		if h.last[k] != o {
 			parts = append(parts, fmt.Sprintf("h%d=%s", k, o))
 			h.last[k] = o
+			if h.Check != nil && h.cfgs[k] == defaultCfg && o != "OBSPANIC" {
+				checkState(u, h.Check, strings.Join(h.ops, " ; "))
+			}
 		}
 	}
 	h.out = append(h.out, strings.Join(parts, " "))
